@@ -141,6 +141,9 @@ Proof. vm_compute. repeat split; reflexivity. Qed.
 (* guard: the constant fits the operand (otherwise only its low wa bits are looked at) *)
 Theorem C08_equal_constant : forall wa v a, 1 <= wa -> fits wa a -> fits wa v -> EqualConstant_m wa 1 v a = equal_spec a v.
 Proof. exact EqualConstant_correct. Qed.
+(* any constant: compared modulo 2^wa *)
+Theorem C08_equal_constant_general : forall wa v a, 1 <= wa -> fits wa a -> EqualConstant_m wa 1 v a = b2z (a =? v mod 2 ^ wa).
+Proof. exact EqualConstant_general. Qed.
 Theorem C08_not_equal_constant : forall wa v a, 1 <= wa -> fits wa a -> fits wa v -> NotEqualConstant_m wa 1 v a = not_equal_spec a v.
 Proof. exact NotEqualConstant_correct. Qed.
 (* Equal's xor wire is  eqw wa wb  bits wide (`eqw`: the constructor's formula, probed).  Numerical equality whenever that wire holds both
@@ -205,7 +208,7 @@ Definition C08_all_theorems :=
    C08_bufenable, C08_concatenate_msbf, C08_concatenate_lsbf, C08_concatenate_msbf_exact, C08_concatenate_lsbf_exact,
    C08_mux2, C08_mux, C08_decoder, C08_demux, C08_onehot_mux,
    C08_select, C08_onehot_mux_selected, C08_onehot_demux, C08_select_default, C08_priority_encoder,
-   C08_priority_encoder_at, C08_minterm, C08_sum_of_minterms, C08_equal_constant, C08_not_equal_constant,
+   C08_priority_encoder_at, C08_minterm, C08_sum_of_minterms, C08_equal_constant, C08_equal_constant_general, C08_not_equal_constant,
    C08_equal, C08_equal_eqw_a, C08_equal_general, C08_equal_wide_refuted, C08_equal_eqw_max,
    C08_any_equal, C08_any_equal_meaning, C08_comparator, C08_comparator_signed_unsigned, C08_max2,
    C08_min2, C08_signed_max2, C08_signed_min2, C08_signed_max_min_meaning, C08_mid_formulas_ok,
